@@ -23,7 +23,8 @@ from tlc import _P, must_ok, run_tlc
 from trace import validate_traces
 import pn  # noqa: F401
 
-TOK = {"1": "1.2.3", ".": ".", "..": "..", "/": "/", "a": "abc", "bs": "\\"}
+TOK = {"1": "1.2.3", ".": ".", "..": "..", "/": "/", "a": "abc", "bs": "\\", "sib": "store.9"}      # "sib": the storage directory's name plus a suffix
+SOP = {"prefixed": "1.2.840.10008.5.1.4.1.1.2", "unprefixed": "1.2.840.10008.5.1.4.1.1.1.1"}
 NEST = ["n1", "n2", "n3", "n4", "store"]
 
 
@@ -40,7 +41,7 @@ def snapshot(root):
     return out
 
 
-def make_event(uid_value, sop_class="1.2.840.10008.5.1.4.1.1.2"):
+def make_event(uid_value, sop_class="1.2.840.10008.5.1.4.1.1.2", field="SOPInstanceUID"):
     from pydicom.dataset import Dataset, FileMetaDataset
     from pynetdicom.dsutils import decode, encode
     from io import BytesIO
@@ -51,7 +52,15 @@ def make_event(uid_value, sop_class="1.2.840.10008.5.1.4.1.1.2"):
     ds.PatientName = "A^B"
     ds.StudyInstanceUID = "1.2.3.4"
     ds.SeriesInstanceUID = "1.2.3.4.5"
-    ds.add_new(0x00080018, "UI", uid_value)
+    ds.add_new(0x00080018, "UI", uid_value if field == "SOPInstanceUID" else "1.2.3.4.5.6")
+    if field == "Modality":
+        ds.add_new(0x00080060, "CS", uid_value)
+    elif field == "PatientID":
+        ds.PatientID = uid_value
+    elif field == "StudyInstanceUID":
+        ds.add_new(0x0020000D, "UI", uid_value)
+    elif field == "SeriesInstanceUID":
+        ds.add_new(0x0020000E, "UI", uid_value)
     raw = encode(ds, True, True)
     got = decode(BytesIO(raw), True, True)          # as the handler would see it after the wire
     meta = FileMetaDataset()
@@ -65,7 +74,7 @@ def make_event(uid_value, sop_class="1.2.840.10008.5.1.4.1.1.2"):
     ev.timestamp = datetime.now()
     ev.assoc = types.SimpleNamespace(requestor=types.SimpleNamespace(address="127.0.0.1", port=11112, ae_title="SCU"))
     ev.context = types.SimpleNamespace(transfer_syntax="1.2.840.10008.1.2")
-    ev.request = types.SimpleNamespace(AffectedSOPInstanceUID=uid_value, AffectedSOPClassUID=sop_class)
+    ev.request = types.SimpleNamespace(AffectedSOPInstanceUID=uid_value if field == "SOPInstanceUID" else "1.2.3.4.5.6", AffectedSOPClassUID=sop_class)
     return ev
 
 
@@ -85,7 +94,8 @@ def run(ctx: Ctx) -> int:
     for m in re.finditer(r'<<\s*"CASE",', r.out):
         p = _P(r.out)
         p.i = m.start()
-        uids.append(list(p.value()[1]))
+        v = p.value()
+        uids.append((list(v[1]), v[2], v[3]))
     if len(uids) < 200:
         raise MachineryError(f"only {len(uids)} UID values exported")
     logger = logging.getLogger("verif.c30")
@@ -94,7 +104,13 @@ def run(ctx: Ctx) -> int:
     base = tempfile.mkdtemp(prefix="c30_", dir=os.path.join(VERIF, ".work"))
     obs = []
     try:
-        for toks in uids:
+        if ctx.tier != "thorough":      # all values in the SOP Instance UID; a seeded sample of the hostile ones in the other attributes
+            import random
+            rng = random.Random(ctx.seed + 30)
+            main = [u for u in uids if u[1] == "SOPInstanceUID" and u[2] == "prefixed"]
+            rest = [u for u in uids if not (u[1] == "SOPInstanceUID" and u[2] == "prefixed")]
+            uids = main + rng.sample(rest, min(len(rest), 900))
+        for toks, field, sopk in uids:
             for app in ("qrscp", "storescp"):
                 root = os.path.join(base, "r")
                 shutil.rmtree(root, ignore_errors=True)
@@ -111,7 +127,7 @@ def run(ctx: Ctx) -> int:
                 cwd = os.getcwd()
                 os.chdir(os.path.join(root, "n1", "n2"))
                 try:
-                    ev = make_event(value)
+                    ev = make_event(value, SOP[sopk], field)
                     if app == "qrscp":
                         db_path = f"sqlite:///{dbfile}"
                         engine = qrdb.create(db_path)
@@ -126,7 +142,7 @@ def run(ctx: Ctx) -> int:
                     os.chdir(cwd)
                 after = snapshot(root)
                 touched = [p for p in after if before.get(p) != after[p]]
-                obs.append({"app": app, "value": value.replace(root, "<ROOT>"), "tokens": toks, "dir": NEST, "db": ["n1", "instances.sqlite"],
+                obs.append({"app": app, "value": value.replace(root, "<ROOT>"), "tokens": toks, "field": field, "sop": sopk, "dir": NEST, "db": ["n1", "instances.sqlite"],
                             "touched": [p.split(os.sep) for p in touched], "exc": exc})
     finally:
         shutil.rmtree(base, ignore_errors=True)
@@ -136,11 +152,11 @@ def run(ctx: Ctx) -> int:
     for o in obs:
         v = verdicts[o["id"]][0]
         ctx.traces += 1
-        ctx.case((o["app"], tuple(o["tokens"])), nontrivial=any(t in ("..", "/", "ABS", "bs") for t in o["tokens"]))
+        ctx.case((o["app"], o["field"], o["sop"], tuple(o["tokens"])), nontrivial=any(t in ("..", "/", "ABS", "bs", "sib") for t in o["tokens"]))
         if v != "ok":
             how = "absolute" if "ABS" in o["tokens"] else "dotdot" if ".." in o["tokens"] and "/" in o["tokens"] else "separator" if "/" in o["tokens"] else "other"
-            ctx.violation({"clause": v, "app": o["app"], "how": how},
-                          f"{v}: {o['app']} handle_store with SOP Instance UID {o['value']!r}: files created/modified {['/'.join(t) for t in o['touched']]} (storage directory {'/'.join(NEST)})", o)
+            ctx.violation({"clause": v, "app": o["app"], "how": how, "field": o["field"]},
+                          f"{v}: {o['app']} handle_store with {o['field']} {o['value']!r} ({o['sop']} SOP class): files created/modified {['/'.join(t) for t in o['touched']]} (storage directory {'/'.join(NEST)})", o)
     ctx.sample(obs[0])
     ctx.sample(obs[-1])
     ctx.assume("the handlers are called directly with an event whose dataset went through pynetdicom's encode/decode; scratch tree under /verif/.work with canary files",
